@@ -34,7 +34,7 @@ prop('C01', COMMON +
      'RESOLVED-ORDINAL: every ordinal the checker resolves into the typed tree (field index, variant tag) is read by the '
      'source->HIR lowering. TYPE-WALKER: type rewriters of the compiler visit every child position. Does '
      'not decide that a visited operand is lowered correctly.',
-     [enum_evidence.run, eval_order.run, eval_order.run_resolved_ordinal, backend.run_str_predicates, type_walker.make(('samlang_compiler',), 3), TI.make(['T-hir', 'T-mir_generics_specialization', 'T-mir_type_deduplication', 'T-mir_constant_param_elimination',
+     [enum_evidence.run, eval_order.run, eval_order.run_resolved_ordinal, backend.run_str_predicates, backend.run_entry_output_fresh, type_walker.make(('samlang_compiler',), 3), TI.make(['T-hir', 'T-mir_generics_specialization', 'T-mir_type_deduplication', 'T-mir_constant_param_elimination',
                'T-lir_lowering', 'T-lune', 'T-wasm'])])
 
 prop('C02', COMMON +
@@ -73,7 +73,7 @@ prop('C06', COMMON +
      'over the checker\'s Type (validation of instantiations, substitution, placeholder search) reads every child position '
      '(type arguments, parameter types, return type).',
      [gate.run_gate, gate.run_errset, gate.run_assign_all_paths, lex_bounds.run_int_range, scope.run_iflet_else,
-      lambda prog, tier, repo: scope.run_reentrant_restore(prog, tier, repo, crates=('samlang_checker',)), relation.run, gate.run_exhaustive_gate, gate.run_placeholder_ordinal, type_walker.make(('samlang_checker',), 6), TI.make(['T-chk', 'T-ssa'])])
+      lambda prog, tier, repo: scope.run_reentrant_restore(prog, tier, repo, crates=('samlang_checker',)), relation.run, relation.run_pairwise, gate.run_exhaustive_gate, gate.run_placeholder_ordinal, type_walker.make(('samlang_checker',), 6), TI.make(['T-chk', 'T-ssa'])])
 
 prop('C08', COMMON +
      'TRAVERSAL/SIBLING: the pretty-printer reads every expression, pattern, annotation, identifier and literal slot of '
@@ -192,7 +192,7 @@ prop('C03', COMMON +
      'identity field, e.g. class-statics vs instance types - the accepted-but-unlowerable programs). Does not decide '
      'type soundness of the checker or validity of the emitted module.',
      [const_arith.run, shape.run_shape, backend.run_ts_splice, gate.run_assign_all_paths,
-      lambda prog, tier, repo: scope.run_reentrant_restore(prog, tier, repo, crates=('samlang_compiler',)), relation.run,
+      lambda prog, tier, repo: scope.run_reentrant_restore(prog, tier, repo, crates=('samlang_compiler',)), relation.run, relation.run_pairwise,
       scope.run_iflet_else, gate.run_exhaustive_gate, gate.run_placeholder_ordinal],
      ['A-05.1: parenthesised lists reaching a Tuple construction are non-empty (the first element is parsed before)'])
 
